@@ -237,6 +237,20 @@ def order_disagree_pair(rng):
     return isoluminant_pair(rng)
 
 
+def multi_step_pair(rng):
+    """a saturated pair 25-65 % below the AA minimum: default mode needs several steps to fix it"""
+    import colorsys
+    repo_import()
+    from cm_colors.core.contrast import calculate_contrast_ratio as ratio_fn
+    for _ in range(200):
+        b = tuple(int(round(255 * x)) for x in colorsys.hsv_to_rgb(rng.random(), rng.uniform(0.3, 1), rng.choice([rng.uniform(0.1, 0.35), rng.uniform(0.8, 1.0)])))
+        t = tuple(int(round(255 * x)) for x in colorsys.hsv_to_rgb(rng.random(), rng.uniform(0.4, 1), rng.uniform(0.3, 1.0)))
+        r = ratio_fn(t, b)
+        if 1.6 <= r <= 3.4:
+            return t, b
+    return rand_rgb(rng), rand_rgb(rng)
+
+
 def gen_pairs(rng, n):
     """structured pair mix: uniform, grey x grey, named x named, near-threshold, text≈bg"""
     repo_import()
